@@ -933,7 +933,11 @@ class Simplifier(pysmt.walkers.DagWalker):
         s, i = args
         if s.is_string_constant() and i.is_int_constant():
             i_value = cast(int, i.constant_value())
-            res = cast(str, s.constant_value())[i_value:i_value + 1]
+            if i_value < 0:
+                # out of range (python would count from the end)
+                res = ""
+            else:
+                res = cast(str, s.constant_value())[i_value:i_value + 1]
             return self.manager.String(res)
         return self.manager.StrCharAt(s, i)
 
@@ -947,10 +951,15 @@ class Simplifier(pysmt.walkers.DagWalker):
     def walk_str_indexof(self, formula: FNode, args: List[FNode], **kwargs) -> FNode:
         s, t, i = args
         if s.is_string_constant() and t.is_string_constant() and i.is_int_constant():
-            idx = cast(str, s.constant_value()).find(
-                cast(str, t.constant_value()),
-                cast(int, i.constant_value()),
-            )
+            start_ = cast(int, i.constant_value())
+            if start_ < 0:
+                # out of range (python would count from the end)
+                idx = -1
+            else:
+                idx = cast(str, s.constant_value()).find(
+                    cast(str, t.constant_value()),
+                    start_,
+                )
             # idx = -1, if t is not found
             return self.manager.Int(idx)
         return self.manager.StrIndexOf(s, t, i)
@@ -968,8 +977,12 @@ class Simplifier(pysmt.walkers.DagWalker):
         s, i, j = args
         if s.is_string_constant() and i.is_int_constant() and j.is_int_constant():
             start_ = cast(int, i.constant_value())
-            end_ = cast(int, i.constant_value()) + cast(int, j.constant_value())
-            res = cast(str, s.constant_value())[start_:end_]
+            len_ = cast(int, j.constant_value())
+            if start_ < 0 or len_ <= 0:
+                # out of range (python would count from the end)
+                res = ""
+            else:
+                res = cast(str, s.constant_value())[start_:start_ + len_]
             return self.manager.String(res)
         return self.manager.StrSubstr(s, i, j)
 
@@ -988,10 +1001,11 @@ class Simplifier(pysmt.walkers.DagWalker):
     def walk_str_to_int(self, formula: FNode, args: List[FNode], **kwargs) -> FNode:
         s = args[0]
         if s.is_string_constant():
-            try:
-                return self.manager.Int(int(s.constant_value()))
-            except ValueError:
-                return self.manager.Int(-1)
+            s_value = cast(str, s.constant_value())
+            # Only non-empty sequences of the digits 0-9 denote a number
+            if s_value.isascii() and s_value.isdigit():
+                return self.manager.Int(int(s_value))
+            return self.manager.Int(-1)
         return self.manager.StrToInt(s)
 
     def walk_int_to_str(self, formula: FNode, args: List[FNode], **kwargs) -> FNode:
